@@ -8,7 +8,6 @@ EXTENDS Encoder
 (* ---------------- C07: frames well-formed, within bounds ----------------- *)
 FrameOK(f, ctx) ==
     /\ Len(f) >= CmpHdrSize + MsgHdrSize
-    /\ IsBytes(f)
     /\ LET w == Walk(f) IN
        /\ Len(w.msgs) >= 1
        /\ Len(f) = Max(w.end, ctx.min)
@@ -33,45 +32,48 @@ FlatMsgs(frames) ==
                                o |-> w[j].o, hmt |-> At(frames[k], 4), flen |-> Len(frames[k])]]])
 
 (* group the flat message list into packets: an unsegmented message, or      *)
-(* first, intermediary..., last                                              *)
-RECURSIVE GroupMsgs(_, _, _, _)
-GroupMsgs(ms, x, open, acc) ==
-    IF x > Len(ms) THEN [ok |-> open = << >>, groups |-> acc]
-    ELSE LET m == ms[x] IN
-         IF m.seg = SegNone THEN
-            IF open # << >> THEN [ok |-> FALSE, groups |-> acc]
-            ELSE GroupMsgs(ms, x + 1, << >>, Append(acc, << m >>))
-         ELSE IF m.seg = SegFirst THEN
-            IF open # << >> THEN [ok |-> FALSE, groups |-> acc]
-            ELSE GroupMsgs(ms, x + 1, << m >>, acc)
-         ELSE IF open = << >> THEN [ok |-> FALSE, groups |-> acc]
-         ELSE IF m.seg = SegMid THEN GroupMsgs(ms, x + 1, Append(open, m), acc)
-         ELSE GroupMsgs(ms, x + 1, << >>, Append(acc, Append(open, m)))
+(* first, intermediary..., last.  Written without recursion over messages:    *)
+(* the list is well-grouped when every message continues or starts a group    *)
+(* legally; groups start at the messages flagged unsegmented or first.        *)
+StartsGroup(m) == m.seg \in {SegNone, SegFirst}
 
-Groups(frames) == GroupMsgs(FlatMsgs(frames), 1, << >>, << >>)
+WellGrouped(ms) ==
+    /\ \A x \in 1..Len(ms) :
+         IF StartsGroup(ms[x]) THEN x = 1 \/ ms[x - 1].seg \in {SegNone, SegLast}
+         ELSE x > 1 /\ ms[x - 1].seg \in {SegFirst, SegMid}
+    /\ ms # << >> => ms[Len(ms)].seg \in {SegNone, SegLast}
 
-GroupLen(grp) == SumSeq([y \in 1..Len(grp) |-> grp[y].len])
-IsSegmented(grp) == Len(grp) > 1 \/ grp[1].seg # SegNone
+Groups(frames) ==
+    LET ms  == FlatMsgs(frames)
+        idx == [x \in 1..Len(ms) |-> x]
+        st  == SelectSeq(idx, LAMBDA x : StartsGroup(ms[x]))
+    IN [ok |-> WellGrouped(ms), ms |-> ms, starts |-> st, n |-> Len(st)]
+
+GFirst(g, x) == g.starts[x]                                   \* index of the first message of group x
+GLast(g, x)  == IF x < g.n THEN g.starts[x + 1] - 1 ELSE Len(g.ms)
+GSize(g, x)  == GLast(g, x) - GFirst(g, x) + 1
+GLen(g, x)   == LET lens == [y \in 1..Len(g.ms) |-> g.ms[y].len] IN SumRange(lens, GFirst(g, x), GLast(g, x))
+GSegmented(g, x) == GSize(g, x) > 1 \/ g.ms[GFirst(g, x)].seg # SegNone
 
 SegRules(batch, ctx, frames) ==
     LET g == Groups(frames) IN
     /\ g.ok
-    /\ Len(g.groups) = Len(batch)
+    /\ g.n = Len(batch)
     /\ \A x \in 1..Len(batch) :
-         LET grp == g.groups[x]  p == batch[x] IN
-         /\ GroupLen(grp) = Len(p.pl)                         \* batch order kept, nothing lost
-         /\ IsSegmented(grp) <=> ~Fits(p, ctx)                \* split only when it cannot fit an empty frame
-         /\ \A y \in 1..Len(grp) : grp[y].hmt = p.mt          \* frame header announces the message type
-         /\ IsSegmented(grp) =>
-              /\ Len(grp) >= 2
-              /\ \A y \in 1..Len(grp) : grp[y].nmsgs = 1                              \* alone in its frame
-              /\ \A y \in 1..(Len(grp) - 1) : grp[y + 1].fr = grp[y].fr + 1            \* consecutive frames
-              /\ \A y \in 1..(Len(grp) - 1) : grp[y].flen = ctx.max                    \* all but the last fill the frame
-    /\ \A x \in 1..(Len(batch) - 1) :                                              \* aggregation
-         LET a == g.groups[x]  c == g.groups[x + 1] IN
-         (~IsSegmented(a) /\ ~IsSegmented(c)) =>
-            ((a[1].fr = c[1].fr) <=>
-               (batch[x].mt = batch[x + 1].mt /\ a[1].o + 16 + a[1].len + 16 + c[1].len <= ctx.max))
+         LET p == batch[x]  a == GFirst(g, x)  z == GLast(g, x) IN
+         /\ GLen(g, x) = Len(p.pl)                                  \* batch order kept, nothing lost
+         /\ GSegmented(g, x) <=> ~Fits(p, ctx)                      \* split only when it cannot fit an empty frame
+         /\ \A y \in a..z : g.ms[y].hmt = p.mt                      \* frame header announces the message type
+         /\ GSegmented(g, x) =>
+              /\ z > a
+              /\ \A y \in a..z : g.ms[y].nmsgs = 1                              \* alone in its frame
+              /\ \A y \in a..(z - 1) : g.ms[y + 1].fr = g.ms[y].fr + 1           \* consecutive frames
+              /\ \A y \in a..(z - 1) : g.ms[y].flen = ctx.max                    \* all but the last fill the frame
+    /\ \A x \in 1..(Len(batch) - 1) :                                         \* aggregation
+         (~GSegmented(g, x) /\ ~GSegmented(g, x + 1)) =>
+            LET a == g.ms[GFirst(g, x)]  c == g.ms[GFirst(g, x + 1)] IN
+            ((a.fr = c.fr) <=>
+               (batch[x].mt = batch[x + 1].mt /\ a.o + 16 + a.len + 16 + c.len <= ctx.max))
 
 (* ---------------- C09: counters and identity ----------------------------- *)
 (* last: counter of the previously emitted frame (0 after set id / restart)  *)
@@ -83,13 +85,13 @@ CounterRule(last, dev, stream, batch, frames, obsSeq, obsDev, obsStream) ==
             /\ h.dev = dev /\ h.st = stream
             /\ batch # << >> => h.ver = batch[1].ver
     /\ LET g == Groups(frames) IN
-       (g.ok /\ Len(g.groups) = Len(batch)) =>
-           \A x \in 1..Len(batch) : \A y \in 1..Len(g.groups[x]) : g.groups[x][y].hmt = batch[x].mt
+       (g.ok /\ g.n = Len(batch)) =>
+           \A x \in 1..Len(batch) : \A y \in GFirst(g, x)..GLast(g, x) : g.ms[y].hmt = batch[x].mt
     /\ obsSeq = (last + Len(frames)) % 65536
     /\ obsDev = dev /\ obsStream = stream
 
 (* ---------------- C10: independence from earlier calls ------------------- *)
-SeqBlank(f) == [i \in 1..Len(f) |-> IF i \in {7, 8} THEN 0 ELSE f[i]]
+SeqBlank(f) == SubSeq(f, 1, 6) \o SubSeq(f, 9, Len(f))
 
 SameUpToShift(frames, fresh) ==
     /\ Len(frames) = Len(fresh)
